@@ -5,6 +5,22 @@ COMMON_ASSUME = [
 ]
 
 PROPS = {
+    "C17": dict(
+        modules=["Copia.Props.C17"], namespaces=["Copia.C17"], runner="rust",
+        assumptions=COMMON_ASSUME + [
+            "usize is 64 bits (`as u64` of a length never truncates)",
+            "release semantics: plain + - * wrap; the theorems prove no wrap happens on the property's domain, so a debug build (which would panic instead) agrees",
+            "`roll` is called with the byte that really is first in the window (property: 'window slides')",
+        ],
+        trusted_base=["src/checksum.rs is exercised through the public API of the copia crate (path dependency on the tree under test)"],
+        level_text="Kernel-checked theorems for ALL windows ≤ 65536 and ALL operation sequences of any length (induction over the op list): "
+                   "RollingChecksum state = fresh construction from the window, both digests = ((b mod 65521)<<16)|(a mod 65521) of the exact sums, "
+                   "types agree, components < 65521, length exact, and no u32/u64 intermediate ever overflows (the 5000-roll normalisation invariant). "
+                   "The bit-precise model (explicit wraps) is tied to the real types by differential runs over op sequences incl. >5000 slides and 64 KiB 0xFF windows; "
+                   "MOD/NORMALIZE_INTERVAL/MAX block are regenerated from the source, so changing them breaks the proofs.",
+        level_note="Trusts Lean's kernel (axioms propext, Classical.choice, Quot.sound), the hand-written bit-precise model, the constants extractor and the harness.",
+        technique="Lean 4 proof (invariant by induction over operation sequences, omega arithmetic) + differential correspondence on op sequences",
+    ),
     "C18": dict(
         modules=["Copia.Props.C18"], namespaces=["Copia.C18"], runner="rust",
         assumptions=COMMON_ASSUME + [
